@@ -379,7 +379,7 @@ Proof. destruct r1, r2; simpl; try contradiction; auto. intro S. f_equal. apply 
 Definition at_most_one (o : option (list nat)) : bool :=
   match o with Some (_ :: _ :: _) => false | _ => true end.
 
-Fixpoint opt_nats_eq (a b : option (list nat)) : bool :=
+Definition opt_nats_eq (a b : option (list nat)) : bool :=
   match a, b with Some x, Some y => nats_eq x y | None, None => true | _, _ => false end.
 
 (* everything the theorems need of one base condition, for one converter: wrappers are invisible (sym, certificate),
